@@ -17,22 +17,22 @@ func init() {
 }
 
 var errDropTable = map[string]string{
-	"(*interp.interp).joinFields:writeCSV":               "target is an in-memory bytes.Buffer, which cannot fail",
-	"(*interp.interp).nextLine:Close":                    "closing an exhausted read-only input file",
-	"(*interp.interp).closeAll:Close":                    "closing inputs and remaining output streams at the end of the run: best effort (a script that cares calls close(), which reports the error)",
-	"(*interp.interp).closeAll:Flush:errorOutput":        "standard error: best effort",
-	"(*interp.interp).flushOutputAndError:Flush":         "best-effort flush before a spawn / prompt; bufio write errors are sticky and surface at the next print",
-	"(*interp.interp).printErrorf:Flush":                 "flushing around a diagnostic message: best effort",
-	"(*interp.interp).printErrorf:Fprintf":               "writing a diagnostic to standard error: best effort",
-	"interp.newOutCmdStream:Close":                       "cleanup of the pipe after the command failed to start; the start error is returned",
-	"interp.newInCmdStream:Close":                        "cleanup of the pipe after the command failed to start; the start error is returned",
-	"interp.parseFloatPrefix:ParseFloat":                 "by design: a range error yields +-Inf, which is the AWK result for an overflowing numeric prefix",
-	"interp.parseHexFloatPrefix:ParseFloat":              "by design: a range error yields +-Inf",
-	"(*interp.interp).callBuiltin:flushAll":              "flush before system(): reports failures on stderr itself; returns a bool, not an error",
-	"(*interp.interp).getline:flushOutputAndError":       "no result",
-	"(*interp.interp).callBuiltin:Seed":                  "no result",
-	"(*interp.interp).execute:WriteString":               "strings.Builder.WriteString never fails",
-	"(*interp.interp).closeAll:Flush:output":             "FINAL FLUSH OF STANDARD OUTPUT - must not be dropped",
+	"(*interp.interp).joinFields:writeCSV":         "target is an in-memory bytes.Buffer, which cannot fail",
+	"(*interp.interp).nextLine:Close":              "closing an exhausted read-only input file",
+	"(*interp.interp).closeAll:Close":              "closing inputs and remaining output streams at the end of the run: best effort (a script that cares calls close(), which reports the error)",
+	"(*interp.interp).closeAll:Flush:errorOutput":  "standard error: best effort",
+	"(*interp.interp).flushOutputAndError:Flush":   "best-effort flush before a spawn / prompt; bufio write errors are sticky and surface at the next print",
+	"(*interp.interp).printErrorf:Flush":           "flushing around a diagnostic message: best effort",
+	"(*interp.interp).printErrorf:Fprintf":         "writing a diagnostic to standard error: best effort",
+	"interp.newOutCmdStream:Close":                 "cleanup of the pipe after the command failed to start; the start error is returned",
+	"interp.newInCmdStream:Close":                  "cleanup of the pipe after the command failed to start; the start error is returned",
+	"interp.parseFloatPrefix:ParseFloat":           "by design: a range error yields +-Inf, which is the AWK result for an overflowing numeric prefix",
+	"interp.parseHexFloatPrefix:ParseFloat":        "by design: a range error yields +-Inf",
+	"(*interp.interp).callBuiltin:flushAll":        "flush before system(): reports failures on stderr itself; returns a bool, not an error",
+	"(*interp.interp).getline:flushOutputAndError": "no result",
+	"(*interp.interp).callBuiltin:Seed":            "no result",
+	"(*interp.interp).execute:WriteString":         "strings.Builder.WriteString never fails",
+	"(*interp.interp).closeAll:Flush:output":       "FINAL FLUSH OF STANDARD OUTPUT - must not be dropped",
 }
 
 func ruleOutput(c *Ctx) {
